@@ -5,13 +5,13 @@ CONSTANTS
   Denoms = {1, 2}
   Funds <- FundsSmall
   Amounts = {0, 1, 2}
-  Months = {1}
+  Months = {1, 3}
   SaleMonths = 2
   Unit = 1
   MonthTicks = 4
-  SaleChains = {1}
+  SaleChains = {1, 2}
   Contracts = {1, 2}
-  MaxOps = 4
+  MaxOps = 2
   MaxNow = 16
 INIT Init2
 NEXT NextR
